@@ -116,6 +116,19 @@ static void onetimeauth_stream(Ctx &c) {
     c.rc(crypto_onetimeauth_final(st, c.out(16)));
     auto *s2 = c.state<crypto_onetimeauth_poly1305_state>(); c.rc(crypto_onetimeauth_poly1305_init(s2, k)); size_t l = c.len(); c.rc(crypto_onetimeauth_poly1305_update(s2, c.in_or_null(l), l)); c.rc(crypto_onetimeauth_poly1305_final(s2, c.out(16)));
 }
+// Poly1305 with r = 1 and three blocks whose sum drives the unreduced accumulator to 2^130 - 5 + k (k = -6..8): the final
+// reduction / conditional subtraction of every backend is exercised at the values random messages never produce
+static void onetimeauth_carry(Ctx &c) {
+    Bytes key(32, 0); key[0] = (uint8_t) (1 + c.r.below(2)); for (int i = 16; i < 32; i++) key[(size_t) i] = (uint8_t) c.r.next(); if (c.chance(3)) for (int i = 16; i < 32; i++) key[(size_t) i] = 0xff;
+    int k = (int) c.r.below(15) - 6;
+    Bytes m(48, 0); m[15] = 0x80; for (int i = 17; i < 31; i++) m[(size_t) i] = 0xff; m[16] = 0xf0; m[31] = 0x7f; m[32] = (uint8_t) (11 + k);
+    if (key[0] == 2) { /* r = 2 doubles the accumulator each block: still a carry-heavy input, different target */ }
+    size_t tail = c.r.below(20); Bytes t = c.r.bytes(tail); m.insert(m.end(), t.begin(), t.end());
+    if (c.chance(2)) { Bytes sh; for (int blk : { 2, 0, 1 }) sh.insert(sh.end(), m.begin() + 16 * blk, m.begin() + 16 * blk + 16); sh.insert(sh.end(), t.begin(), t.end()); m = sh; }
+    uint8_t *kp = c.inb(key), *mp = c.inb(m), *tag = c.out(16);
+    c.rc(crypto_onetimeauth(tag, mp, m.size(), kp)); c.rc(crypto_onetimeauth_verify(tag, mp, m.size(), kp));
+    auto *st = c.state<crypto_onetimeauth_state>(); c.rc(crypto_onetimeauth_init(st, kp)); c.rc(crypto_onetimeauth_update(st, mp, 16)); c.rc(crypto_onetimeauth_update(st, mp + 16, m.size() - 16)); c.rc(crypto_onetimeauth_final(st, c.out(16)));
+}
 static void hash_oneshot(Ctx &c) { size_t l = c.len(); uint8_t *m = c.in_or_null(l); c.rc(crypto_hash_sha256(c.out(32), m, l)); c.rc(crypto_hash_sha512(c.out(64), m, l)); c.rc(crypto_hash(c.out(64), m, l)); }
 static void generichash_all(Ctx &c) {
     size_t l = c.len(), ol = 1 + c.r.below(64), kl = c.r.coin() ? 0 : 1 + c.r.below(64); uint8_t *m = c.in_or_null(l), *k = kl ? c.in(kl) : nullptr;
@@ -146,6 +159,8 @@ STREAM_ENTRY(salsa208, 8)
 #define STREAM_IC_ENTRY(P, NB, ICT)                                                                                                              \
     static void stream_##P(Ctx &c) { size_t l = c.len(); uint8_t *k = c.in(32), *n = c.in(NB), *m = c.in(l);                                    \
         uint64_t ic = c.r.below(3) == 0 ? 0xfffffff0ULL + c.r.below(32) : (c.r.below(3) == 0 ? c.r.next() : c.r.below(100));                    \
+        /* the 2^32 carry placed where a vector stride (4 or 8 blocks) or the tail after it begins */                                            \
+        if (c.r.below(4) == 0) { uint64_t stride = c.r.below(2) ? 4 : 8, full = (l / 64) / stride * stride; ic = 0x100000000ULL * (1 + c.r.below(3)) - (c.r.below(2) ? full : c.r.below(full + 1)) + c.r.below(3) - 1; } \
         if (sizeof(ICT) == 4) { uint64_t blocks = (l + 63) / 64; ic &= 0xffffffffULL; if (ic + blocks > 0x100000000ULL) ic = 0x100000000ULL - blocks; if (ic > 0xffffffffULL) ic = 0; }  \
         c.rc(crypto_stream_##P(c.out(l), l, n, k)); c.rc(crypto_stream_##P##_xor(c.out(l), m, l, n, k)); c.rc(crypto_stream_##P##_xor_ic(c.out(l), m, l, n, (ICT) ic, k)); }
 STREAM_IC_ENTRY(chacha20, 8, uint64_t)
@@ -223,8 +238,24 @@ static void secretstream_all(Ctx &c) {
     c.val(push, sizeof *push); c.val(pull, sizeof *pull);
 }
 // ------------------------------------------------------------------------------------------------------------ public-key: scalarmult, sign, kx, core
+// X25519 input points: random, zero, the low-order encodings (with and without the ignored top bit), non-canonical u >= p,
+// sparse strings of 0x00 / 0x80 bytes -- the inputs on which the backends' input screening and output checks could disagree
+static Bytes x25519_point(Ctx &c) {
+    static const char *LOW[] = { "0000000000000000000000000000000000000000000000000000000000000000", "0100000000000000000000000000000000000000000000000000000000000000",
+        "e0eb7a7c3b41b8ae1656e3faf19fc46ada098deb9c32b1fd866205165f49b800", "5f9c95bca3508c24b1d0b1559c83ef5b04445cc4581c8e86d8224eddd09f1157",
+        "ecffffffffffffffffffffffffffffffffffffffffffffffffffffffffffff7f", "edffffffffffffffffffffffffffffffffffffffffffffffffffffffffffff7f", "eeffffffffffffffffffffffffffffffffffffffffffffffffffffffffffff7f" };
+    Bytes b(32);
+    switch (c.r.below(8)) {
+    case 4: break;
+    case 5: { const char *h = LOW[c.r.below(7)]; for (int i = 0; i < 32; i++) { unsigned v; sscanf(h + 2 * i, "%2x", &v); b[(size_t) i] = (uint8_t) v; } if (c.r.below(2)) b[31] |= 0x80; break; }
+    case 6: for (auto &x : b) x = c.r.below(3) == 0 ? 0x80 : 0x00; if (c.r.below(2)) b[0] |= 1; break;
+    case 7: std::fill(b.begin(), b.end(), 0xff); b[31] = c.r.below(2) ? 0x7f : 0xff; b[0] = (uint8_t) (0xed + c.r.below(19)) ; if (c.r.below(3) == 0) b[0] = (uint8_t) (0xec - c.r.below(3)); break;
+    default: c.r.fill(b.data(), 32); break;
+    }
+    return b;
+}
 static void scalarmult_all(Ctx &c) {
-    uint8_t *n = c.in(32), *p = c.in(32, c.chance(6) ? 1 : 0);
+    uint8_t *n = c.in(32), *p = c.inb(x25519_point(c));
     uint8_t *q = c.scratch(32);
     c.rcv(crypto_scalarmult(q, n, p), q, 32); c.rcv(crypto_scalarmult_curve25519(q, n, p), q, 32); c.rcv(crypto_scalarmult_base(q, n), q, 32); c.rcv(crypto_scalarmult_curve25519_base(q, n), q, 32);
 }
@@ -322,6 +353,7 @@ static void pad_all(Ctx &c) {
 static void pwhash_all(Ctx &c) {
     size_t pl = c.len(100), ol = 16 + c.r.below(100); uint8_t *pw = c.in(pl), *salt = c.in(32);
     size_t mem = 8192 + 1024 * c.r.below(56) + c.r.below(1024);
+    if (c.chance(3)) mem = 1024 * (516 + c.r.below(600));      // segment length > 128: more than one address block per segment
     c.rc(crypto_pwhash(c.out(ol), ol, (const char *) pw, pl, salt, 3, mem, crypto_pwhash_ALG_ARGON2I13)); c.rc(crypto_pwhash(c.out(ol), ol, (const char *) pw, pl, salt, 1 + c.r.below(2), mem, crypto_pwhash_ALG_ARGON2ID13));
     c.rc(crypto_pwhash_argon2i(c.out(ol), ol, (const char *) pw, pl, salt, 3, mem, 1)); c.rc(crypto_pwhash_argon2id(c.out(ol), ol, (const char *) pw, pl, salt, 1, mem, 2));
     c.rc(crypto_pwhash_scryptsalsa208sha256_ll(pw, pl, salt, c.r.below(33), (uint64_t) 1 << (1 + c.r.below(6)), 1 + (uint32_t) c.r.below(3), 1 + (uint32_t) c.r.below(2), c.out(ol), ol));
@@ -342,6 +374,37 @@ static void pwhash_all(Ctx &c) {
         c.rc(crypto_pwhash_str_needs_rehash(sp, 1, 8192)); c.rc(crypto_pwhash_argon2i_str_needs_rehash(sp, 3, 8192)); c.rc(crypto_pwhash_argon2id_str_needs_rehash(sp, 1, 8192));
         c.rc(crypto_pwhash_scryptsalsa208sha256_str_needs_rehash(sp, 32768, 1 << 16));
     }
+}
+
+// Hash strings as an attacker supplies them: intact, cut to every prefix length (the length sweeps pin `cut`), one character
+// substituted, or both; NUL-terminated in an exact-size buffer, so a parser that walks past the terminator is caught.
+static void pwhash_strings(Ctx &c) {
+    size_t cut = c.len(120), pl = c.r.below(40); uint8_t *pw = c.in(pl);
+    static const char *S[] = { "$argon2id$v=19$m=8,t=1,p=1$c29tZXNhbHRzb21lc2FsdA$Nf0LOcFbTX0x1h/lJ0UKzTCzQS5CKUhqpMp1QL6o8dM", "$argon2i$v=19$m=8,t=3,p=1$c29tZXNhbHRzb21lc2FsdA$Nf0LOcFbTX0x1h/lJ0UKzTCzQS5CKUhqpMp1QL6o8dM",
+                               "$7$2/..../....saltsaltsaltsaltsaltsaltsaltsaltsaltsaltsal$aaaaaaaaaaaaaaaaaaaaaaaaaaaaaaaaaaaaaaaaaa." };
+    for (const char *s : S) {
+        std::string t = s; int mode = (int) c.r.below(4);
+        if (mode >= 2) { size_t pos = c.r.below(t.size()); static const char SUB[] = "$,=/+.09Az \x80!"; t[pos] = SUB[c.r.below(sizeof SUB - 1)]; }
+        bool ok = true; size_t mp = t.find("m=");       // cost guard (before cutting: a prefix of a cheap string is cheap or malformed)
+        if (t[1] == 'a') { if (mp == std::string::npos || t.compare(mp, 5, "m=8,t") != 0 || t.find(",p=1$") == std::string::npos || (t.find("t=1,") == std::string::npos && t.find("t=3,") == std::string::npos)) ok = false; }
+        else if (t.compare(0, 14, "$7$2/..../....") != 0) ok = false;
+        if (!ok) { c.rc(-7); continue; }
+        if (mode == 1 || mode == 3) t.resize(std::min(cut, t.size()));
+        Bytes tz(t.begin(), t.end()); tz.push_back(0); const char *sp = (const char *) c.inb(tz);
+        c.rc(crypto_pwhash_str_verify(sp, (const char *) pw, pl)); c.rc(crypto_pwhash_argon2i_str_verify(sp, (const char *) pw, pl)); c.rc(crypto_pwhash_argon2id_str_verify(sp, (const char *) pw, pl));
+        c.rc(crypto_pwhash_scryptsalsa208sha256_str_verify(sp, (const char *) pw, pl));
+        c.rc(crypto_pwhash_str_needs_rehash(sp, 1, 8192)); c.rc(crypto_pwhash_argon2i_str_needs_rehash(sp, 3, 8192)); c.rc(crypto_pwhash_argon2id_str_needs_rehash(sp, 1, 8192));
+        c.rc(crypto_pwhash_scryptsalsa208sha256_str_needs_rehash(sp, 32768, 1 << 16));
+    }
+}
+
+// Argon2 with more than one address block per segment (segment length > 128 <=> m >= 516 KiB): the data-independent addressing
+// code of every block-fill backend regenerates its address block inside a segment only from here on
+static void pwhash_large(Ctx &c) {
+    size_t pl = c.len(40), ol = 16 + c.r.below(50); uint8_t *pw = c.in(pl), *salt = c.in(16);
+    size_t mem = 1024 * (516 + c.r.below(560)) + c.r.below(1024);
+    c.rc(crypto_pwhash(c.out(ol), ol, (const char *) pw, pl, salt, 3, mem, crypto_pwhash_ALG_ARGON2I13));
+    c.rc(crypto_pwhash(c.out(ol), ol, (const char *) pw, pl, salt, 1, mem, crypto_pwhash_ALG_ARGON2ID13));
 }
 
 inline const std::vector<Entry> &table() {
@@ -369,6 +432,7 @@ inline const std::vector<Entry> &table() {
         { "sha256_stream", sha256_stream, "crypto_hash_sha256_init crypto_hash_sha256_update crypto_hash_sha256_final", 0 },
         { "sha512_stream", sha512_stream, "crypto_hash_sha512_init crypto_hash_sha512_update crypto_hash_sha512_final", 0 },
         { "onetimeauth_stream", onetimeauth_stream, "crypto_onetimeauth_init crypto_onetimeauth_update crypto_onetimeauth_final crypto_onetimeauth_poly1305_init crypto_onetimeauth_poly1305_update crypto_onetimeauth_poly1305_final", 0 },
+        { "onetimeauth_carry", onetimeauth_carry, "crypto_onetimeauth crypto_onetimeauth_verify crypto_onetimeauth_init crypto_onetimeauth_update crypto_onetimeauth_final", 0 },
         { "hash", hash_oneshot, "crypto_hash crypto_hash_sha256 crypto_hash_sha512", 0 },
         { "generichash", generichash_all, "crypto_generichash crypto_generichash_init crypto_generichash_update crypto_generichash_final crypto_generichash_blake2b crypto_generichash_blake2b_salt_personal crypto_generichash_blake2b_init crypto_generichash_blake2b_init_salt_personal crypto_generichash_blake2b_update crypto_generichash_blake2b_final", 0 },
         { "shorthash", shorthash_all, "crypto_shorthash crypto_shorthash_siphash24 crypto_shorthash_siphashx24", 0 },
@@ -399,6 +463,8 @@ inline const std::vector<Entry> &table() {
         { "verify_utils", verify_all, "crypto_verify_16 crypto_verify_32 crypto_verify_64 sodium_memcmp sodium_compare sodium_is_zero sodium_increment sodium_add sodium_sub sodium_memzero sodium_stackzero", 0 },
         { "codecs", codecs_all, "sodium_bin2hex sodium_hex2bin sodium_bin2base64 sodium_base642bin sodium_base64_encoded_len", 0 },
         { "padding", pad_all, "sodium_pad sodium_unpad", 0 },
+        { "pwhash_large", pwhash_large, "crypto_pwhash", 2 },
+        { "pwhash_strings", pwhash_strings, "crypto_pwhash_str_verify crypto_pwhash_argon2i_str_verify crypto_pwhash_argon2id_str_verify crypto_pwhash_scryptsalsa208sha256_str_verify crypto_pwhash_str_needs_rehash crypto_pwhash_argon2i_str_needs_rehash crypto_pwhash_argon2id_str_needs_rehash crypto_pwhash_scryptsalsa208sha256_str_needs_rehash", 1 },
         { "pwhash", pwhash_all, "crypto_pwhash crypto_pwhash_argon2i crypto_pwhash_argon2id crypto_pwhash_scryptsalsa208sha256 crypto_pwhash_scryptsalsa208sha256_ll crypto_pwhash_str_verify crypto_pwhash_argon2i_str_verify crypto_pwhash_argon2id_str_verify crypto_pwhash_scryptsalsa208sha256_str_verify crypto_pwhash_str_needs_rehash crypto_pwhash_argon2i_str_needs_rehash crypto_pwhash_argon2id_str_needs_rehash crypto_pwhash_scryptsalsa208sha256_str_needs_rehash", 2 },
     };
     return T;
